@@ -1,6 +1,7 @@
 package world
 
 import (
+	"bytes"
 	"encoding/hex"
 	"fmt"
 	"math/big"
@@ -87,6 +88,14 @@ func NewWorld(cfg Config) (*World, error) {
 	if r.Intn(2) == 0 && cfg.NumShards > 1 {
 		u.DNS = append(u.DNS, ContractAddr(41, 1))
 	}
+	switch cfg.NumDNS {
+	case -1:
+		u.DNS = nil
+	case 1:
+		u.DNS = [][]byte{dns}
+	case 2:
+		u.DNS = [][]byte{dns, ContractAddr(41, 1%cfg.NumShards)}
+	}
 	for i := 0; i < 2; i++ {
 		u.MetaAddrs = append(u.MetaAddrs, MetaContractAddr(i))
 	}
@@ -99,6 +108,7 @@ func NewWorld(cfg Config) (*World, error) {
 		u.Tokens = append(u.Tokens, &TokenInfo{ID: id, Kind: kinds[i], Roles: map[string]map[string]bool{}, Frozen: map[string]bool{}})
 	}
 	payTable := map[string]int{}
+	var deployTrouble []string
 	dep := parsers.NewDeployArgsParser()
 	type genesis struct {
 		addr  []byte
@@ -119,13 +129,24 @@ func NewWorld(cfg Config) (*World, error) {
 		}
 		md := vmcommon.CodeMetadata{Payable: st == Payable, Upgradeable: r.Intn(2) == 0, Readable: r.Intn(2) == 0}
 		// contract accounts come into being through the real deploy-arguments parser
-		deploy := hex.EncodeToString([]byte{0xde, 0xad, byte(i)}) + "@0500@" + hex.EncodeToString(md.ToBytes())
+		code := []byte{0xde, 0xad, byte(i)}
+		var ctorArgs [][]byte
+		for k := r.Intn(4); k > 0; k-- {
+			a := make([]byte, r.Intn(3))
+			r.Read(a)
+			ctorArgs = append(ctorArgs, a) // empty arguments included, also in last position
+		}
+		deploy := hex.EncodeToString(code) + "@0500@" + hex.EncodeToString(md.ToBytes())
+		for _, a := range ctorArgs {
+			deploy += "@" + hex.EncodeToString(a)
+		}
 		da, err := dep.ParseData(deploy)
 		if err != nil {
-			return nil, fmt.Errorf("deploy parser refused %q: %v", deploy, err)
-		}
-		if da.CodeMetadata != md {
-			return nil, fmt.Errorf("deploy parser changed the code metadata of %q", deploy)
+			deployTrouble = append(deployTrouble, fmt.Sprintf("deploy parser refused %q: %v", deploy, err))
+			da = &parsers.DeployArgs{CodeMetadata: md}
+		} else if da.CodeMetadata != md || !bytes.Equal(da.Code, code) || !bytes.Equal(da.VMType, []byte{5, 0}) || !eqArgs(da.Arguments, ctorArgs) {
+			deployTrouble = append(deployTrouble, fmt.Sprintf("deploy data %q parses to code=%x vm=%x meta=%+v args=%x, encoded were code=%x vm=0500 meta=%+v args=%x", deploy, da.Code, da.VMType, da.CodeMetadata, da.Arguments, code, md, ctorArgs))
+			da.CodeMetadata = md
 		}
 		payTable[string(c)] = st
 		var owner []byte
@@ -167,6 +188,9 @@ func NewWorld(cfg Config) (*World, error) {
 		a.Owner = g.owner
 		a.DevReward = g.rew
 		w.Nodes[sh].Store.Accts[string(g.addr)] = a
+	}
+	for _, d := range deployTrouble {
+		w.violate(spec.Violation{Props: spec.P("C12"), Clause: "deploy-roundtrip", Detail: d})
 	}
 	pc := NewCodec(NewFaultPlan())
 	pc.Check = false
